@@ -341,13 +341,13 @@ def case_newton_not_converged(ctx, N):
     ctx.check(raised, "D-RES.not-converged", info="residual >= atol after the allowed iterations is reported as failure")
 
 
-def case_not_converged_witness(ctx, N, m0):
+def case_not_converged_witness(ctx, N, m0, spread=False):
     """concrete witness: uniform first guess (all multipliers 0) and moments (m0,0,0,0) with atol <= m0: one Newton
     iteration is allowed, the solver must report failure (ValueError with the MEM fall-back disabled) unless the
     updated iterate is within atol - which is checked on the returned distribution"""
     M2, M1 = _m2(ctx)
     th, tw, inc = _grid(ctx, N)
-    mom = ctx.const(np.array([m0, 0.0, 0.0, 0.0]))
+    mom = ctx.const(np.array([m0, m0, m0, m0]) if spread else np.array([m0, 0.0, 0.0, 0.0]))
     guess = ctx.const(np.zeros(4))
     cfg = dict(max_iter=1, rcond=1e-6, atol=0.01, max_line_search_depth=1, use_mem_when_failing_to_converge=0.0)
     raised = False
@@ -424,6 +424,9 @@ def cases(tier):
     add("case_newton_convergence_exit", "newton_converged_N4", N=4, opts=dict(weight=40))
     for m0 in (0.03, 0.05, 0.2):
         add("case_not_converged_witness", f"not_converged_witness_{m0}", N=6, m0=m0, opts=dict(fold_sqrt=True, validate=0))
+    for m0 in (0.007, 0.009):   # every single moment error below atol, their norm above it
+        add("case_not_converged_witness", f"not_converged_witness_spread_{m0}", N=6, m0=m0, spread=True,
+            opts=dict(fold_sqrt=True, validate=0))
     if not q:
         add("case_newton_not_converged", "newton_not_converged_N4", N=4, opts=dict(weight=40, validate=0,
                                                                                    case_timeout_s=1500))
